@@ -62,7 +62,7 @@ def est_cells(ra1, dec1, cs):
     return (dr / cs + 3.0) * (360.0 / cs + 3.0)
 
 
-BRD_EVERY = 5
+BRD_EVERY = 17
 PROTOCOL_MAX_CELLS = 5e4
 
 
